@@ -364,6 +364,11 @@ def _trace_closure(b, defs, op, depth=0):
                 continue
             if d["k"] == "agg" and d["ak"]["k"] == "closure":
                 return d["ak"]["def"]
+            if d["k"] == "agg" and d["ak"]["k"] == "adt" and d["ak"].get("def") == "core::option::Option" and d["ops"]:
+                # an optional slot: Some(closure as fn pointer)
+                c = _trace_closure(b, defs, d["ops"][0], depth + 1)
+                if c:
+                    return c
             if d["k"] in ("use", "cast"):
                 c = _trace_closure(b, defs, d["o"], depth + 1)
                 if c:
@@ -384,11 +389,13 @@ def _vtable_field_of_call(prog, body, term):
     def field_of_place(pl, depth=0):
         # walk projections: looking for [..., deref, field i] on a GcVtable-typed base
         projs = pl["p"]
-        if projs and projs[-1][0] == "f":
-            # type of base
-            base_ty = _place_ty(prog, body, {"l": pl["l"], "p": projs[:-1]})
-            if base_ty is not None and prog.adt_of(base_ty) == "gc_ptr::GcVtable":
-                return projs[-1][1]
+        # any field projection whose base is a GcVtable value (the slot may be unwrapped further, e.g. an
+        # Option-typed slot matched as Some(f))
+        for i in range(len(projs) - 1, -1, -1):
+            if projs[i][0] == "f":
+                base_ty = _place_ty(prog, body, {"l": pl["l"], "p": projs[:i]})
+                if base_ty is not None and prog.adt_of(base_ty) == "gc_ptr::GcVtable":
+                    return projs[i][1]
         if not projs and depth < 6:
             for kind, d in defs.get(pl["l"], []):
                 if kind == "rv" and d["k"] == "use" and d["o"].get("k") in ("copy", "move"):
